@@ -1140,7 +1140,7 @@ class PseudoNetCDFFile(PseudoNetCDFSelfReg, object):
 
         coordkeys = self.getCoords()
         outf = self.copy(variables=False)
-        nitems = len(self.variables.keys())
+        nitems = len(list(self.variables.keys()))
         if verbose == 1:
             print('|' + '=' * nitems + '|', flush=True)
             print('|', end='', flush=True)
